@@ -10,18 +10,18 @@ logged with every meaningful slot right.
 namespace Nomt.Walker
 open Nomt Nomt.TriePos
 
-variable {Node VH : Type} [DecidableEq Node] [DecidableEq VH] (H : Hasher Node VH)
+variable {Node VH : Type} [DecidableEq Node] [DecidableEq VH] (H : Hasher Node VH) (D : Path → Prop)
 
 /-- the slot of `q` holds its specified node -/
 def Good (S : List (Key × VH)) (st : Store Node) (q : Path) : Prop := st q = specNode H S q
 
 /-- every meaningful slot strictly below `c` holds its specified node -/
 def SubOK (S : List (Key × VH)) (st : Store Node) (c : Path) : Prop :=
-  ∀ r, c <+: r → r ≠ c → r.length ≤ 256 → Mean S r → st r = specNode H S r
+  ∀ r, c <+: r → r ≠ c → r.length ≤ 256 → D r → Mean S r → st r = specNode H S r
 
 /-- a logged page: every meaningful slot of the page holds its specified node -/
 def LogOK (S : List (Key × VH)) (e : PageId × Store Node) : Prop :=
-  ∀ q, q ≠ [] → specPage q = e.1 → q.length ≤ 256 → Mean S q → e.2 q = specNode H S q
+  ∀ q, q ≠ [] → specPage q = e.1 → q.length ≤ 256 → D q → Mean S q → e.2 q = specNode H S q
 
 /-! ## small path facts -/
 
@@ -175,13 +175,13 @@ theorem tw_compactStep_effect (hs : H.Sound) {S : List (Key × VH)} (hk : KeysOK
 theorem tw_round (hs : H.Sound) {S : List (Key × VH)} (hk : KeysOK S) (a : TW Node) (c0 : Path) (b : Bool)
     (hp : a.pos = c0 ++ [b]) (hl : c0.length < 256)
     (hg : Good H S a.store (c0 ++ [b])) (hgs : Good H S a.store (c0 ++ [!b]))
-    (hsub : SubOK H S a.store (c0 ++ [b])) (hsubs : SubOK H S a.store (c0 ++ [!b])) :
+    (hsub : SubOK H D S a.store (c0 ++ [b])) (hsubs : SubOK H D S a.store (c0 ++ [!b])) :
     let r := a.compactStep H
     let a2 := r.2.up
     r.1 = specNode H S c0 ∧ a2.pos = c0 ∧ a2.cpr = a.cpr ∧
     (∀ q, ¬ c0 <+: q → a2.store q = a.store q) ∧ a2.store c0 = a.store c0 ∧
-    SubOK H S a2.store c0 ∧
-    (∀ e ∈ a2.log, e ∈ a.log ∨ LogOK H S e) ∧ (∀ e ∈ a.log, e ∈ a2.log) := by
+    SubOK H D S a2.store c0 ∧
+    (∀ e ∈ a2.log, e ∈ a.log ∨ LogOK H D S e) ∧ (∀ e ∈ a.log, e ∈ a2.log) := by
   intro r a2
   obtain ⟨hval, hpos, hlog, hcpr, hE⟩ := tw_compactStep_effect H hs hk a c0 b hp hl hg hgs
   have hst : a2.store = r.2.store := by
@@ -205,8 +205,8 @@ theorem tw_round (hs : H.Sound) {S : List (Key × VH)} (hk : KeysOK S) (a : TW N
     rcases hE c0 with h | ⟨h, _⟩
     · exact h
     · rcases h with h | h <;> exact absurd h.symm (hne _)
-  have hsubok : SubOK H S a2.store c0 := by
-    intro r' hpre hner hlen256 hmean
+  have hsubok : SubOK H D S a2.store c0 := by
+    intro r' hpre hner hlen256 hD hmean
     obtain ⟨b', rest, rfl⟩ := prefix_strict_cases hpre hner
     rw [hst]
     cases rest with
@@ -229,10 +229,10 @@ theorem tw_round (hs : H.Sound) {S : List (Key × VH)} (hk : KeysOK S) (a : TW N
       · rw [h]
         by_cases hb : b' = b
         · subst hb
-          exact hsub _ (snoc_prefix_of_cons c0 b' (x :: xs)) (hlen b') hlen256 hmean
+          exact hsub _ (snoc_prefix_of_cons c0 b' (x :: xs)) (hlen b') hlen256 hD hmean
         · have : b' = !b := by cases b <;> cases b' <;> simp_all
           subst this
-          exact hsubs _ (snoc_prefix_of_cons c0 (!b) (x :: xs)) (hlen (!b)) hlen256 hmean
+          exact hsubs _ (snoc_prefix_of_cons c0 (!b) (x :: xs)) (hlen (!b)) hlen256 hD hmean
       · rcases h with h | h <;> exact absurd h (hlen _)
   refine ⟨hval, ?_, ?_, hframe, hc0, hsubok, ?_, ?_⟩
   · show (r.2.up).pos = c0
@@ -251,12 +251,12 @@ theorem tw_round (hs : H.Sound) {S : List (Key × VH)} (hk : KeysOK S) (a : TW N
       · left; rw [← hlog]; exact he
       · right
         subst he
-        intro q hq hpg hq256 hmean
+        intro q hq hpg hq256 hD hmean
         have hrne : r.2.pos ≠ [] := by rcases hpos with h | h <;> rw [h] <;> simp
         have := page_members_below r.2.pos q hrne hd hq hpg
         rw [hdl] at this
         rw [← hst]
-        exact hsubok q this.1 this.2 hq256 hmean
+        exact hsubok q this.1 this.2 hq256 hD hmean
     · left; rw [← hlog]; exact he
   · intro e he
     have : a2.log = if dip r.2.pos = 1 then r.2.log ++ [(specPage r.2.pos, r.2.store)] else r.2.log := by
@@ -269,11 +269,11 @@ theorem tw_round (hs : H.Sound) {S : List (Key × VH)} (hk : KeysOK S) (a : TW N
 
 /-! ## the loop -/
 
-theorem subOK_upd_self {S : List (Key × VH)} (st : Store Node) (c : Path) (n : Node) (h : SubOK H S st c) :
-    SubOK H S (upd st c n) c := by
-  intro r hpre hne hlen hmean
+theorem subOK_upd_self {S : List (Key × VH)} (st : Store Node) (c : Path) (n : Node) (h : SubOK H D S st c) :
+    SubOK H D S (upd st c n) c := by
+  intro r hpre hne hlen hD hmean
   rw [upd_other _ _ _ _ hne]
-  exact h r hpre hne hlen hmean
+  exact h r hpre hne hlen hD hmean
 
 /-- anything below the other branch is not below `p ++ s` when `s` continues with `b1` after `s1` -/
 theorem not_under_of_flip (p s1 : Path) (b1 : Bool) (s q : Path) (hs : (s1 ++ [b1]) <+: s)
@@ -299,12 +299,12 @@ last round -/
 theorem tw_compactLoop_spec (hs : H.Sound) {S : List (Key × VH)} (hk : KeysOK S) (cfg : TWCfg Node) :
     ∀ (n : Nat) (a : TW Node) (p s : Path), a.pos = p ++ s → s.length = n → cfg.top ≤ p.length →
       (p ++ s).length ≤ 256 →
-      Good H S a.store (p ++ s) → SubOK H S a.store (p ++ s) →
+      Good H S a.store (p ++ s) → SubOK H D S a.store (p ++ s) →
       (∀ s1 b1, (s1 ++ [b1]) <+: s →
-        Good H S a.store (p ++ s1 ++ [!b1]) ∧ SubOK H S a.store (p ++ s1 ++ [!b1])) →
+        Good H S a.store (p ++ s1 ++ [!b1]) ∧ SubOK H D S a.store (p ++ s1 ++ [!b1])) →
       let a' := TW.compactLoop H cfg n a
-      a'.pos = p ∧ SubOK H S a'.store p ∧ (∀ q, ¬ p <+: q → a'.store q = a.store q) ∧
-      (∀ e ∈ a'.log, e ∈ a.log ∨ LogOK H S e) ∧ (∀ e ∈ a.log, e ∈ a'.log) ∧
+      a'.pos = p ∧ SubOK H D S a'.store p ∧ (∀ q, ¬ p <+: q → a'.store q = a.store q) ∧
+      (∀ e ∈ a'.log, e ∈ a.log ∨ LogOK H D S e) ∧ (∀ e ∈ a.log, e ∈ a'.log) ∧
       (n = 0 → a' = a) ∧
       (0 < n →
         if p.length ≤ cfg.top ∧ cfg.hasParent = true then
@@ -332,9 +332,9 @@ theorem tw_compactLoop_spec (hs : H.Sound) {S : List (Key × VH)} (hk : KeysOK S
       omega
     have hsb := hsib s' b (List.prefix_refl _)
     have hg' : Good H S a.store ((p ++ s') ++ [b]) := by rw [← List.append_assoc] at hg; exact hg
-    have hsub' : SubOK H S a.store ((p ++ s') ++ [b]) := by rw [← List.append_assoc] at hsub; exact hsub
+    have hsub' : SubOK H D S a.store ((p ++ s') ++ [b]) := by rw [← List.append_assoc] at hsub; exact hsub
     obtain ⟨hval, hpos2, hcpr2, hframe2, hc02, hsub2, hlog2, hlogmono2⟩ :=
-      tw_round H hs hk a (p ++ s') b hpos hl hg' hsb.1 hsub' hsb.2
+      tw_round H D hs hk a (p ++ s') b hpos hl hg' hsb.1 hsub' hsb.2
     -- unfold one iteration
     show (let a' := TW.compactLoop H cfg (n + 1) a; _)
     rw [tw_compactLoop_succ]
@@ -361,7 +361,7 @@ theorem tw_compactLoop_spec (hs : H.Sound) {S : List (Key × VH)} (hk : KeysOK S
         rw [hcpr2, hpos2, hval]
       · rw [if_neg hpar]
         refine ⟨hpos2, ?_, ?_, hlog2, hlogmono2, fun h => absurd h (by omega), fun _ => ?_⟩
-        · have := subOK_upd_self H (S := S) a2.store p r.1 hsub2
+        · have := subOK_upd_self H D (S := S) a2.store p r.1 hsub2
           simpa [TW.setNode, hpos2] using this
         · intro q hq
           have hqp : q ≠ p := by intro e; apply hq; rw [e]; exact List.prefix_refl _
@@ -381,15 +381,15 @@ theorem tw_compactLoop_spec (hs : H.Sound) {S : List (Key × VH)} (hk : KeysOK S
         intro q hq; simp [TW.setNode, hpos2, upd_other _ _ _ _ hq]
       have hg3 : Good H S (a2.setNode r.1).store (p ++ s') := by
         simp [TW.setNode, Good, hpos2, upd_same, hval]
-      have hsub3 : SubOK H S (a2.setNode r.1).store (p ++ s') := by
-        have := subOK_upd_self H (S := S) a2.store (p ++ s') r.1 hsub2
+      have hsub3 : SubOK H D S (a2.setNode r.1).store (p ++ s') := by
+        have := subOK_upd_self H D (S := S) a2.store (p ++ s') r.1 hsub2
         simpa [TW.setNode, hpos2] using this
       have hsame : ∀ q, ¬ (p ++ s') <+: q → (a2.setNode r.1).store q = a.store q := by
         intro q hq
         have hqp : q ≠ p ++ s' := by intro e; apply hq; rw [e]; exact List.prefix_refl _
         rw [hst3 q hqp]; exact hframe2 q hq
       have hsib3 : ∀ s1 b1, (s1 ++ [b1]) <+: s' →
-          Good H S (a2.setNode r.1).store (p ++ s1 ++ [!b1]) ∧ SubOK H S (a2.setNode r.1).store (p ++ s1 ++ [!b1]) := by
+          Good H S (a2.setNode r.1).store (p ++ s1 ++ [!b1]) ∧ SubOK H D S (a2.setNode r.1).store (p ++ s1 ++ [!b1]) := by
         intro s1 b1 hpre
         have hpre' : (s1 ++ [b1]) <+: (s' ++ [b]) := List.IsPrefix.trans hpre (List.prefix_append _ _)
         obtain ⟨hgx, hsx⟩ := hsib s1 b1 hpre'
@@ -397,9 +397,9 @@ theorem tw_compactLoop_spec (hs : H.Sound) {S : List (Key × VH)} (hk : KeysOK S
         · show (a2.setNode r.1).store _ = _
           rw [hsame _ (not_under_of_flip p s1 b1 s' _ hpre (List.prefix_refl _))]
           exact hgx
-        · intro q hq hne hlen hmean
+        · intro q hq hne hlen hD hmean
           rw [hsame _ (not_under_of_flip p s1 b1 s' _ hpre hq)]
-          exact hsx q hq hne hlen hmean
+          exact hsx q hq hne hlen hD hmean
       obtain ⟨hP, hSub, hFr, hLog, hLogMono, hZero, hPos⟩ :=
         ih (a2.setNode r.1) p s' hpos3 hlen' htop (by omega) hg3 hsub3 hsib3
       have hlog3 : (a2.setNode r.1).log = a2.log := rfl
